@@ -20,6 +20,23 @@ def _drop_idle_make(ev):
     return ev
 
 
+def _ok_to_pending(ev):
+    for i, x in enumerate(ev):
+        if x.get('e') == 'call' and x.get('res') == 'ok':
+            ev[i] = dict(x, res='pending', by='-')
+            return ev
+    return ev
+
+
+def _swap_answerer(ev):
+    """candidates: an ok answer attributed to the other server (rejected whenever that server is down or not configured)"""
+    out = []
+    for i, x in enumerate(ev):
+        if x.get('e') == 'call' and x.get('res') == 'ok' and len(out) < 4:
+            out.append(ev[:i] + [dict(x, by='b' if x['by'] == 'a' else 'a')] + ev[i + 1:])
+    return out or ev
+
+
 def balance_part(verdict, cov, mc, seed, tier, tag):
     """Extension of the specification beyond the listed properties: the load-balanced channel (Balance.tla).  The model is checked
     (Contract; must-violate deviations; the stale-error observation), its simulated behaviours are replayed on a real
@@ -53,6 +70,13 @@ def balance_part(verdict, cov, mc, seed, tier, tag):
         for k in range(8 if tier != 'thorough' else 30):
             stims.append({'class': 'stale_error', 'servers': ['a', 'b'], 'up0': ['b'], 'script': [{'op': 'insert', 'key': 'k1', 'srv': 'a'}, {'op': 'insert', 'key': 'k2', 'srv': 'b'}]
                           + [{'op': 'call'}] * (2 + k % 4) + [{'op': 'up', 'srv': 'a'}] + [{'op': 'call'}] * 4})
+        # Channel::balance_list: the endpoints are fixed up front; servers go down and come back
+        for k in range(6 if tier != 'thorough' else 24):
+            up0 = [['a', 'b'], ['a'], ['b'], []][k % 4]
+            steps = [{'op': 'call'}, {'op': 'call'}]
+            for srv in (('a', 'b') if k % 2 else ('b', 'a')):
+                steps += [{'op': 'up' if srv not in up0 else 'down', 'srv': srv}, {'op': 'call'}, {'op': 'call'}]
+            stims.append({'class': 'balance_list', 'servers': ['a', 'b'], 'up0': up0, 'list': ['a', 'b'] if k % 3 else ['a'], 'script': steps})
         ev, path = simple.run_lab('balance', stims, tag + '_balance', 'balance', timeout=1500)
         # the clauses of C14 that read the same for any channel (completes, definite result, recovers) are violations when they fail
         # (this lab runs in real time over real sockets: a violation is reported only if it shows again when the run is repeated on its own)
@@ -89,7 +113,8 @@ def balance_part(verdict, cov, mc, seed, tier, tag):
                     stale += 1
         info['stale_errors_observed'] = stale
         if runs:
-            info['mechanism_trace'] = core.mech_validate(verdict, runs, 'Trace_BalanceMech', 'Trace_BalanceMech.cfg', tag + '_balance', 'balance', 'Balance.tla')
+            info['mechanism_trace'] = core.mech_validate(verdict, runs, 'Trace_BalanceMech', 'Trace_BalanceMech.cfg', tag + '_balance', 'balance', 'Balance.tla',
+                                                            (('ok_to_pending', _ok_to_pending), ('swap_answerer', _swap_answerer)))
     except Exception as e:      # never fails the check of a listed property
         info['note'] = f'balance extension not evaluated: {str(e)[:300]}'
         verdict.notes.append(info['note'])
